@@ -196,7 +196,7 @@ class ExprInt(Expr):
     def __eq__(self, a):
         if not isinstance(a, ExprInt):
             return False
-        return self.arg == a.arg
+        return self.arg == a.arg and self.arg.size == a.arg.size
     def __hash__(self):
         return hash(self.arg)
     def __repr__(self):
